@@ -269,6 +269,21 @@ type c04Bucket struct {
 	marked []string
 }
 
+// c04Store stores key in bk0: by a PUT, or - for every key whose length is 1 mod 3 - by a server-side
+// copy from another bucket (an object that arrived by copy lists and pages like any other).
+func c04Store(st *backends.Stack, key string, body []byte) *s3x.Resp {
+	if len(key)%3 != 1 || st.Kind.IsSingle() {
+		return put(st, "bk0", key, body)
+	}
+	if r := mkBucket(st, "bk1"); r.Status != 200 && r.ErrCode() != "BucketAlreadyExists" {
+		panic("harness: create bucket bk1: " + r.String())
+	}
+	if r := put(st, "bk1", "copy-source", body); r.Status != 200 {
+		return r
+	}
+	return s3x.Do(st.Handler, &s3x.Req{Method: "PUT", Path: "/bk0/" + key, Header: s3x.H("X-Amz-Copy-Source", "/bk1/copy-source")})
+}
+
 func c04Replay(check string, raw json.RawMessage) ([]disc, error) {
 	var cs c04Case
 	if err := json.Unmarshal(raw, &cs); err != nil {
@@ -287,7 +302,7 @@ func c04Replay(check string, raw json.RawMessage) ([]disc, error) {
 		}
 	}
 	for _, k := range cs.Keys {
-		if r := put(st, "bk0", k, c03Body(k)); r.Status != 200 {
+		if r := c04Store(st, k, c03Body(k)); r.Status != 200 {
 			return nil, fmt.Errorf("put %q: %s", k, r)
 		}
 	}
@@ -434,7 +449,7 @@ func c04Run(t *testing.T, c *evid.Collector) {
 				}
 				ks := []string{"a", "ab", "b/a", "b/b", "bb"}
 				for _, kk := range ks {
-					put(st, "bk0", kk, c03Body(kk))
+					c04Store(st, kk, c03Body(kk))
 				}
 				for _, d := range []string{"", "/"} {
 					for _, p := range []string{"", "a", "b", "b/"} {
@@ -474,7 +489,7 @@ func c04Run(t *testing.T, c *evid.Collector) {
 				segs = append(segs, segGen.Draw(rt, "seg"))
 			}
 			k := strings.Join(segs, "/")
-			put(st, "bk0", k, c03Body(k))
+			c04Store(st, k, c03Body(k))
 			live[k] = true
 			if versioned && rapid.IntRange(0, 4).Draw(rt, "mark") == 0 {
 				del(st, "bk0", k)
